@@ -24,11 +24,12 @@ theorem sh_roundtrip (args : List Str) : shSplit (joinSp (args.map shQuote)) = .
 example : shSplit (joinSp (["a b".toList, [], "it's $x;*\n".toList, "é".toList].map shQuote)) =
     .ok ["a b".toList, [], "it's $x;*\n".toList, "é".toList] := sh_roundtrip _
 
-/-- Ninja layer: a string without newline is accepted by `ninja_quote` (both variants) and Ninja's
-evaluation of the escaped text gives the string back, in every environment. -/
-theorem ninja_roundtrip (build : Bool) (env : Str → Str) (s : Str) (h : NoNl s) :
+/-- Ninja layer: a string without newline (and, on a build line, without `|`, which Ninja cannot
+escape and `ninja_quote` rejects) is accepted by `ninja_quote` (both variants) and Ninja's evaluation
+of the escaped text gives the string back, in every environment. -/
+theorem ninja_roundtrip (build : Bool) (env : Str → Str) (s : Str) (h : NoNl s) (hp : build = true → '|' ∉ s) :
     ∃ q, ninjaQuote build s = .ok q ∧ ninjaEval env q = .ok s := by
-  refine ⟨ninjaEsc build s, ninjaQuote_eq build s h, ?_⟩
+  refine ⟨ninjaEsc build s, ninjaQuote_eq' build s h hp, ?_⟩
   unfold ninjaEval
   have := nLex_esc build s h []
   simp only [List.append_nil] at this
@@ -521,5 +522,137 @@ theorem env_prefix_argv (r : ExeReq) (argv : List Str) (h : asMesonExeCmdline r 
   · split at h
     · split at h <;> cases h
     · cases h
+
+/-! ### `meson --internal exe`: the wrapper's own options never swallow the command -/
+
+def sDashDash : Str := ['-', '-']
+def sCapture : Str := ['-', '-', 'c', 'a', 'p', 't', 'u', 'r', 'e']
+def sFeed : Str := ['-', '-', 'f', 'e', 'e', 'd']
+
+/-- the option words `as_meson_exe_cmdline` puts in front of `--` -/
+def wrapperOpts (cap feed : Option Str) : List Str :=
+  (match cap with | some c => [sCapture, c] | none => []) ++
+  (match feed with | some f => [sFeed, f] | none => [])
+
+/-- a file name that argparse takes as a value: it does not start with `-` -/
+def ValueWord (c : Str) : Prop := c.head? ≠ some '-'
+
+instance (c : Str) : Decidable (ValueWord c) := by unfold ValueWord; infer_instance
+
+theorem classify_value (c : Str) (h : ValueWord c) : classifyArg c = .positional := by
+  cases c with
+  | nil => rfl
+  | cons x r =>
+    have hx : x ≠ '-' := by simpa [ValueWord] using h
+    simp [classifyArg, hx]
+
+theorem value_ne_dashdash (c : Str) (h : ValueWord c) : c ≠ ['-', '-'] := by
+  intro e; subst e; exact h rfl
+
+theorem classify_capture : classifyArg sCapture = .opt .capture none := by decide
+theorem classify_feed : classifyArg sFeed = .opt .feed none := by decide
+
+theorem exeScan_sep (n : Nat) (st : ExeArgs) (rest : List Str) :
+    exeScan (n + 1) st (sDashDash :: rest) = .ok { st with extras := st.extras ++ sDashDash :: rest } := by
+  simp [exeScan, sDashDash]
+
+theorem exeScan_capture (n : Nat) (st : ExeArgs) (c : Str) (rest : List Str) (h : ValueWord c) :
+    exeScan (n + 1) st (sCapture :: c :: rest) = exeScan n (st.set .capture c) rest := by
+  rw [exeScan, if_neg (by decide), classify_capture]
+  simp [value_ne_dashdash c h, classify_value c h]
+
+theorem exeScan_feed (n : Nat) (st : ExeArgs) (c : Str) (rest : List Str) (h : ValueWord c) :
+    exeScan (n + 1) st (sFeed :: c :: rest) = exeScan n (st.set .feed c) rest := by
+  rw [exeScan, if_neg (by decide), classify_feed]
+  simp [value_ne_dashdash c h, classify_value c h]
+
+/-- the classification pass over the option words finds nothing ambiguous -/
+theorem opts_not_ambiguous (cap feed : Option Str) (argv : List Str)
+    (hc : ∀ c, cap = some c → ValueWord c) (hf : ∀ f, feed = some f → ValueWord f) :
+    ((wrapperOpts cap feed ++ sDashDash :: argv).takeWhile (· ≠ ['-', '-'])).any
+      (fun a => classifyArg a = .ambiguous) = false := by
+  have e1 : sCapture ≠ ['-', '-'] := by decide
+  have e2 : sFeed ≠ ['-', '-'] := by decide
+  cases cap with
+  | none =>
+    cases feed with
+    | none => simp [wrapperOpts, sDashDash, List.takeWhile]
+    | some f =>
+      have vf := hf f rfl
+      simp [wrapperOpts, sDashDash, List.takeWhile, e2, value_ne_dashdash f vf, classify_feed, classify_value f vf]
+  | some c =>
+    have vc := hc c rfl
+    cases feed with
+    | none =>
+      simp [wrapperOpts, sDashDash, List.takeWhile, e1, value_ne_dashdash c vc, classify_capture, classify_value c vc]
+    | some f =>
+      have vf := hf f rfl
+      simp [wrapperOpts, sDashDash, List.takeWhile, e1, e2, value_ne_dashdash c vc, value_ne_dashdash f vf,
+        classify_capture, classify_feed, classify_value c vc, classify_value f vf]
+
+/-- **exe_wrapper_passes_command**: whatever words the wrapped command consists of — including ones
+that look like the wrapper's own options (`--capture`, `--feed=x`, `--unpickle`, abbreviations, `-h`,
+a second `--`) — `meson --internal exe [--capture OUT] [--feed IN] -- argv…` runs exactly `argv`
+with exactly that capture and feed. -/
+theorem exe_wrapper_passes_command (cap feed : Option Str) (argv : List Str) (hne : argv ≠ [])
+    (hc : ∀ c, cap = some c → ValueWord c) (hf : ∀ f, feed = some f → ValueWord f) :
+    mesonExeParse (wrapperOpts cap feed ++ sDashDash :: argv) = .run cap feed argv := by
+  unfold mesonExeParse
+  rw [if_neg (by rw [opts_not_ambiguous cap feed argv hc hf]; exact Bool.false_ne_true)]
+  cases cap with
+  | none =>
+    cases feed with
+    | none =>
+      simp only [wrapperOpts, List.append_nil, List.nil_append, List.length_cons]
+      rw [exeScan_sep]
+      simp [sDashDash, nonEmpty?, hne]
+    | some f =>
+      simp only [wrapperOpts, List.nil_append, List.cons_append, List.length_cons]
+      rw [exeScan_feed _ _ _ _ (hf f rfl), exeScan_sep]
+      simp [sDashDash, ExeArgs.set, nonEmpty?, hne]
+  | some c =>
+    cases feed with
+    | none =>
+      simp only [wrapperOpts, List.append_nil, List.cons_append, List.nil_append, List.length_cons]
+      rw [exeScan_capture _ _ _ _ (hc c rfl), exeScan_sep]
+      simp [sDashDash, ExeArgs.set, nonEmpty?, hne]
+    | some f =>
+      simp only [wrapperOpts, List.cons_append, List.nil_append, List.length_cons]
+      rw [exeScan_capture _ _ _ _ (hc c rfl), exeScan_feed _ _ _ _ (hf f rfl), exeScan_sep]
+      simp [sDashDash, ExeArgs.set, nonEmpty?, hne]
+
+example : mesonExeParse (sCapture :: "o.txt".toList :: sDashDash ::
+      ["prog".toList, "--capture".toList, "--feed=x".toList, "-h".toList, sDashDash, "--unp".toList]) =
+    .run (some "o.txt".toList) none
+      ["prog".toList, "--capture".toList, "--feed=x".toList, "-h".toList, sDashDash, "--unp".toList] :=
+  exe_wrapper_passes_command (some "o.txt".toList) none _ (by simp) (by intro c h; cases h; decide) (by intro f h; cases h)
+
+/-- …and this is the command line `as_meson_exe_cmdline` writes: its option words are exactly
+`wrapperOpts capture feed`, followed (after the `--` that `internalExe` stands for) by the unchanged command -/
+theorem internal_exe_shape (r : ExeReq) (opts argv : List Str) (h : asMesonExeCmdline r = .internalExe opts argv) :
+    opts = wrapperOpts r.capture r.feed ∧ argv = r.cmdArgs := by
+  unfold asMesonExeCmdline at h
+  simp only at h
+  split at h
+  · cases h
+  · split at h
+    · split at h
+      · cases h
+      · injection h with h1 h2
+        subst h1; subst h2
+        exact ⟨rfl, rfl⟩
+    · cases h
+
+/-- without the separator the statement is false: the wrapper would take the command's own
+`--feed=x` (this is why the `--` must be written) -/
+example : mesonExeParse ["--capture".toList, "o.txt".toList, "prog".toList, "--feed=x".toList] =
+    .run (some "o.txt".toList) (some "x".toList) ["prog".toList] := by decide
+
+/-- a path with `|` cannot be written on a build line (no escape exists in Ninja): rejected -/
+theorem ninja_rejects_pipe (s : Str) (h : NoNl s) (hp : '|' ∈ s) : ninjaQuote true s = .error .pipe := by
+  unfold ninjaQuote
+  have hn : s.contains '\n' = false := (contains_false_iff _ _).2 h
+  have hpc : s.contains '|' = true := by simpa [List.contains_iff_mem] using hp
+  rw [if_neg (by rw [hn]; exact Bool.false_ne_true), if_pos (by rw [hpc]; rfl)]
 
 end MesonModel.Props.C03
